@@ -16,9 +16,17 @@ func TestC12Seq(t *testing.T) {
 	rapid.Check(t, func(t *rapid.T) {
 		// a small data region, so that freed blocks are handed out again soon (next-fit wraps; restarts reset the cursor)
 		size := uint64(rapid.IntRange(1540+300, 1540+900).Draw(t, "disksize"))
+		bigDisk := rapid.IntRange(0, 3).Draw(t, "bigdisk") == 0
+		if bigDisk {
+			// room for one file that only the background shrinker can free (more than one journal transaction)
+			size = 1540 + 1600
+		}
 		x, cc := newSeqCase(t, "C12", size, 10)
 		defer func() { x.S.Stop() }()
 		capBlocks := int(size-1540) / 2
+		if bigDisk {
+			capBlocks = 400
+		}
 		cfg := DefaultCfg()
 		cfg.BadRefs, cfg.WrongKind, cfg.LongNames, cfg.DotNames, cfg.BigWrites, cfg.MaxWriteBlks = 1, 1, false, false, false, 10
 		cfg.HugeOffsets = false
@@ -139,6 +147,84 @@ func TestC12Seq(t *testing.T) {
 			}
 		}
 		acts["readall2"] = acts["readall"]
+		// a file too large to be freed in one transaction is cut (mostly to exactly 0) and the server stops with the
+		// shrinker interrupted; the file is then removed or renamed over, the server restarts, and new files (one of
+		// them gets the inode number) are grown and read: zeros only
+		nbig := 0
+		acts["bigfree_interrupted"] = func(t *rapid.T) {
+			if !bigDisk || nbig >= 1 || cut {
+				t.Skip("not in this case")
+			}
+			nbig++
+			root := LiveRef(x.M.Root)
+			name := g.NewName(t, x.M.Root)
+			if err := x.Create(root, name); err != nil || !x.LastOK {
+				judge(t, err)
+				return
+			}
+			f := x.M.Root.Children[name]
+			start := uint64(0)
+			for _, n := range []int{300, rapid.IntRange(230, 300).Draw(t, "blocks2")} {
+				cnt := uint32(n) * BlockSize
+				if err := x.Write(LiveRef(f), start*BlockSize, patternData(g.nextTag(), uint64(cnt)), cnt, nt.UNSTABLE); err != nil || !x.LastOK {
+					judge(t, err)
+					return
+				}
+				start += uint64(n)
+			}
+			sz := pick(t, []uint64{0, 0, 0, 100, BlockSize, 9*BlockSize - 7}, "newsize")
+			if err := x.Setattr(LiveRef(f), &sz, false); err != nil {
+				judge(t, err)
+				return
+			}
+			if rapid.IntRange(0, 3).Draw(t, "interrupt") > 0 {
+				if err := crashRestart(x); err != nil {
+					cut = true
+					return
+				}
+				St.Class("big_file_cut_and_server_stopped_with_the_shrinker_interrupted")
+			}
+			var err error
+			if rapid.IntRange(0, 2).Draw(t, "how") == 0 {
+				other := g.NewName(t, x.M.Root)
+				if err = x.Create(root, other); err == nil && x.LastOK {
+					err = x.Rename(root, other, root, name)
+				}
+			} else {
+				err = x.Remove(root, name)
+			}
+			if err != nil {
+				judge(t, err)
+				return
+			}
+			if rapid.Bool().Draw(t, "restart") {
+				if err := x.Restart(); err != nil {
+					judge(t, err)
+					return
+				}
+			}
+			for i := 0; i < 2 && !cut; i++ {
+				nn := g.NewName(t, x.M.Root)
+				if err := x.Create(root, nn); err != nil || !x.LastOK {
+					judge(t, err)
+					return
+				}
+				nf := x.M.Root.Children[nn]
+				if rapid.Bool().Draw(t, "growbysetattr") {
+					gsz := uint64(rapid.IntRange(1, 30).Draw(t, "growblocks"))*BlockSize + 5
+					err = x.Setattr(LiveRef(nf), &gsz, false)
+				} else {
+					err = x.Write(LiveRef(nf), uint64(rapid.IntRange(1, 30).Draw(t, "gapblocks"))*BlockSize+3, patternData(g.nextTag(), 10), 10, nt.FILE_SYNC)
+				}
+				if err == nil {
+					err = x.Read(LiveRef(nf), 0, 32*BlockSize)
+				}
+				if err != nil {
+					judge(t, err)
+					return
+				}
+			}
+		}
 		everOwned, freed := map[uint64]bool{}, map[uint64]bool{}
 		reused := 0
 		steps, nfsck := 0, 0
